@@ -461,6 +461,65 @@ fn audit_dir(dir: &std::path::Path, root: &std::path::Path, out: &mut Vec<(Strin
     }
 }
 
+// ---------------------------------------------------------------- replay
+
+/// Re-run the job of a replay file (oracle failure input or model-side case) on the engine and
+/// print what the String variant, the Vec variant and a few failing writers give now.
+fn replay(path: &std::path::Path) {
+    let j: serde_json::Value = serde_json::from_str(&std::fs::read_to_string(path).expect("replay file")).expect("json");
+    let inp = j.get("case").or_else(|| j.get("input")).unwrap_or(&j);
+    let (Some(sources), Some(job)) = (inp.get("sources"), inp.get("job")) else {
+        println!("replay: nothing to re-run on the engine (no sources/job in the file)");
+        return;
+    };
+    let mut tera = Tera::default();
+    tera.autoescape_on(vec![".html"]);
+    if let Some(arr) = sources.as_array() {
+        let set: Vec<(String, String)> = arr.iter().filter_map(|p| Some((p.get(0)?.as_str()?.to_string(), p.get(1)?.as_str()?.to_string()))).collect();
+        if set.iter().any(|(n, _)| n == "components.html") {
+            tera = Tera::default();
+        }
+        if let Err(e) = tera.add_raw_templates(set) {
+            println!("replay: templates no longer register: {e}");
+            return;
+        }
+    } else if let Some(obj) = sources.as_object() {
+        for (_, src) in obj {
+            for name in ["t.html", "t.txt"] {
+                let _ = tera.add_raw_template(name, src.as_str().unwrap_or(""));
+            }
+        }
+    }
+    let gs = |k: &str| job.get(k).and_then(|x| x.as_str()).unwrap_or("").to_string();
+    let jb = match gs("api").as_str() {
+        "render" => Job::Render(gs("template")),
+        "render_block" => Job::Block(gs("template"), gs("block")),
+        "render_component" => Job::Component { name: gs("component"), body: job.get("body").and_then(|x| x.as_str()).map(|s| s.to_string()), ae: job.get("autoescape").and_then(|x| x.as_bool()).unwrap_or(true) },
+        _ => Job::Str { src: gs("source"), ae: job.get("autoescape").and_then(|x| x.as_bool()).unwrap_or(true) },
+    };
+    let cname = inp.get("context").and_then(|x| x.as_str()).unwrap_or("empty");
+    let mut all = contexts();
+    all.push(corpus_context());
+    let c = all.iter().find(|(n, _)| n == cname).map(|(_, c)| c.clone()).unwrap_or_default();
+    let ctx = to_context(&c);
+    silence_panics();
+    let s = guarded(|| run_string(&tera, &jb, &ctx));
+    let mut rec = Rec::default();
+    let r = guarded(|| run_to(&tera, &jb, &ctx, &mut rec));
+    println!("String variant: {}", s.json(|t| json!(t)));
+    println!("_to variant: {} bytes={:?} write calls={}", r.json(|_| json!("ok")), String::from_utf8_lossy(&rec.buf), rec.starts.len());
+    for k in 1..=rec.starts.len().min(6) {
+        let mut w = FailAt::new(k);
+        let o = guarded(|| run_to(&tera, &jb, &ctx, &mut w));
+        println!("writer failing at call {k}: {} accepted={:?}", class(&o), String::from_utf8_lossy(&w.buf));
+    }
+    if let Some(n) = inp.get("budget_bytes").and_then(|x| x.as_u64()) {
+        let mut w = Budget { remaining: n as usize, max_per_call: usize::MAX, buf: Vec::new(), zero_instead_of_err: false };
+        let o = guarded(|| run_to(&tera, &jb, &ctx, &mut w));
+        println!("budget writer n={n}: {} accepted={:?}", class(&o), String::from_utf8_lossy(&w.buf));
+    }
+}
+
 // ---------------------------------------------------------------- main
 
 struct Stats {
@@ -484,6 +543,10 @@ fn main() {
     let args = parse_args();
     if std::env::var("VERIF_LOUD").is_err() {
         silence_panics();
+    }
+    if let Some(path) = &args.replay {
+        replay(path);
+        return;
     }
     let thorough = args.tier == "thorough";
     let mut rng = Rng::new(args.seed);
@@ -588,8 +651,8 @@ fn main() {
     // ---------------- per job x context: API agreement, failing writers, model cases
     let call_cap = if thorough { 400 } else { 48 };
     let budget_cap = if thorough { 160 } else { 28 };
-    let wfail_rate: (u64, u64) = if thorough { (1, 10) } else { (2, 5) };
-    let wcalls_rate: (u64, u64) = if thorough { (1, 50) } else { (1, 9) };
+    let wfail_rate: (u64, u64) = if thorough { (1, 18) } else { (2, 5) };
+    let wcalls_rate: (u64, u64) = if thorough { (1, 70) } else { (1, 9) };
     let mut distinct_behaviours = std::collections::HashSet::new();
     for suite in &suites {
         let is_corpus = suite.label.starts_with("corpus") || suite.label == "components";
@@ -934,7 +997,9 @@ fn main() {
     }
 
     // ---------------- (v) source audit
-    let root = std::path::Path::new("/repo/tera/src");
+    let repo = std::env::var("VERIF_REPO").unwrap_or_else(|_| "/repo".to_string());
+    let root_buf = std::path::Path::new(&repo).join("tera/src");
+    let root = root_buf.as_path();
     let mut hits = Vec::new();
     audit_dir(root, root, &mut hits);
     let mut seen_kinds = std::collections::BTreeSet::new();
